@@ -173,6 +173,29 @@ def run(ctx):
         m = re.search(r'<iconset theme="([^"]*)">', r["ui"])
         if m:
             aterms.append(("(%s)%%N" % C.coq_list([str(ord(c)) for c in s]), "(%s)%%N" % C.coq_list([str(ord(c)) for c in m.group(1)])))
+    # the one string of the .ui that does not come from the document text: the form's class = the type name of the document (the stem of the file name, which
+    # may hold any character a file name can)
+    tnames = ["MyType", "R&D", "P&lt;Q", "a<b", "x>y", "q\"uote", "it's", "\u00e9t\u00e9", "]]>", "a b", "&", "<", "A&amp;B", "x&#10;y", "tab\tname", "--", "<!--x-->", "<class>"] + \
+             ["".join(rng.choice("ab<>&\"' ;#x]") for _ in range(rng.randrange(1, 8))) for _ in range(200 if thorough else 40)]
+    tdoc = "import qmluic.QtWidgets\nQWidget { QLabel { text: \"t\" } }\n"
+    tres = qml.run_docs(vh, [{"source": tdoc, "mode": "generate", "type_name": tn} for tn in tnames])
+    for tn, r in zip(tnames, tres):
+        ctx.count(("type-name", tn), tn != "MyType")
+        ctx.dist("type-name")
+        if not isinstance(r, dict) or "diags" not in r:
+            ctx.violation("pipeline crashes on a document type name", {"case": tn, "impl_output": str(r)[:300]})
+            continue
+        if r.get("ui") is None:
+            continue
+        try:
+            troot = ET.fromstring(r["ui"].encode("utf-8"))
+        except ET.ParseError as e:
+            ctx.violation("the .ui of a document whose type name is %r is not well-formed XML: %s" % (tn, e), {"case": tn, "qml": tdoc, "type_name": tn, "impl_output": r["ui"], "theorem_or_correspondence": "S: expat"})
+            continue
+        got = troot.find("class").text or ""
+        if got != tn:
+            ctx.violation("the form's class read back by an XML parser is %r; the document's type name is %r" % (got, tn), {"case": tn, "qml": tdoc, "type_name": tn, "impl_output": r["ui"],
+                                                                                                                  "theorem_or_correspondence": "C09_roundtrip / S"})
     # a string XML cannot carry must be diagnosed in EVERY place, one place per document (in the all-places document one diagnosed place hides the others)
     ONE = ["  windowIcon.name: %s\n", "  QLabel { text: %s }\n", "  QComboBox { model: [%s, \"z\"] }\n", "  QLabel { pixmap: %s }\n", "  QLabel { text: qsTr(%s) }\n",
            "  QTextBrowser { searchPaths: [%s, \"z\"] }\n", "  QToolButton { icon.name: %s }\n", "  QToolButton { shortcut: %s }\n", "  QToolButton { icon.normalOff: %s }\n",
